@@ -41,7 +41,10 @@ static bool op( Ctx& c, const Toks& t, FILE* out )
 {
     const std::string& op = t[0];
     if ( op == "alarm" && t.size() == 2 ) { // per-case time limit of this family (timeouts are faults)
-        alarm( (unsigned)num( t[1] ) );
+        unsigned secs = (unsigned)num( t[1] );
+        if ( const char* e = getenv( "VH_TIMEOUT_SCALE" ) ) // check.py re-runs timed-out cases alone with a scaled limit
+            secs *= (unsigned)std::max( 1, atoi( e ) );
+        alarm( secs );
         fprintf( out, "ok\n" );
         return true;
     }
